@@ -574,6 +574,29 @@ func inputIndexGuarded(c *core.Ctx, rels ...string) {
 			if _, isK := core.ConstInt(ia.Index); isK {
 				return
 			}
+			// bytes that came in: a parameter, or state that was filled from one (a field, a map entry, the result of a module
+			// function); not a buffer the function made itself or got from the standard library (a digest, make)
+			incoming := core.SomeSource(ia.X, func(s ssa.Value) bool {
+				switch x := s.(type) {
+				case *ssa.Parameter, *ssa.Lookup, *ssa.FreeVar:
+					return true
+				case *ssa.UnOp:
+					return x.Op == token.MUL
+				case *ssa.Extract:
+					if call, ok := x.Tuple.(*ssa.Call); ok {
+						g := call.Call.StaticCallee()
+						return g == nil || core.InModule(g)
+					}
+					return true
+				case *ssa.Call:
+					g := x.Call.StaticCallee()
+					return g != nil && core.InModule(g)
+				}
+				return false
+			})
+			if !incoming {
+				return
+			}
 			n++
 			if indexBoundedBy(ia, ia.Index, ia.X) {
 				return
